@@ -332,10 +332,11 @@ def solution_cost(relations, variables, assignment, infinity):
     infinity
     """
     cost_hard, cost_soft = 0, 0
-    if len(variables) != len(assignment):
+    missing = [v.name for v in variables if v.name not in assignment]
+    if missing or len(variables) != len(assignment):
         raise ValueError('Cannot compute solution cost : incomplete '
                          'assignment, missing values for vars {}'
-                         .format(set(variables) - set(assignment)))
+                         .format(missing))
 
     for r in relations:
         # values = filter_assignment_dict(assignment, r.dimensions)
